@@ -249,21 +249,34 @@ def _type_test(test, sm: SourceModel, clsname, subject_hint=None):
     if isinstance(test, ast.UnaryOp) and isinstance(test.op, ast.Not):
         v = _type_test(test.operand, sm, clsname)
         return None if v is None else (not v)
-    if isinstance(test, ast.Compare) and len(test.ops) == 1 and isinstance(test.ops[0], (ast.Is, ast.Eq, ast.IsNot)):
+    if isinstance(test, ast.Compare) and len(test.ops) == 1 and isinstance(test.ops[0], (ast.Is, ast.Eq, ast.IsNot, ast.NotEq)):
         l, r = test.left, test.comparators[0]
         if isinstance(l, ast.Call) and isinstance(l.func, ast.Name) and l.func.id == 'type' and isinstance(r, ast.Name):
             if r.id in MESH_CLASSES or sm.has_cls(r.id):
                 res = (clsname == r.id)
-                return (not res) if isinstance(test.ops[0], ast.IsNot) else res
+                return (not res) if isinstance(test.ops[0], (ast.IsNot, ast.NotEq)) else res
+        return None
+    if isinstance(test, ast.Compare) and len(test.ops) == 1 and isinstance(test.ops[0], (ast.In, ast.NotIn)):
+        # type(X) in (A, B)
+        l, r = test.left, test.comparators[0]
+        if isinstance(l, ast.Call) and isinstance(l.func, ast.Name) and l.func.id == 'type' and isinstance(r, (ast.Tuple, ast.List, ast.Set)) \
+                and all(isinstance(x, ast.Name) and sm.has_cls(x.id) for x in r.elts):
+            res = clsname in {x.id for x in r.elts}
+            return (not res) if isinstance(test.ops[0], ast.NotIn) else res
         return None
     if isinstance(test, ast.Call) and isinstance(test.func, ast.Name):
+        def names(b):
+            if isinstance(b, ast.Name) and sm.has_cls(b.id):
+                return [b.id]
+            if isinstance(b, ast.Tuple) and b.elts and all(isinstance(x, ast.Name) and sm.has_cls(x.id) for x in b.elts):
+                return [x.id for x in b.elts]
+            return None
         if test.func.id == 'issubclass' and len(test.args) == 2:
             a, b = test.args
-            if isinstance(a, ast.Call) and isinstance(a.func, ast.Name) and a.func.id == 'type' and isinstance(b, ast.Name):
-                return sm.is_subclass(clsname, b.id)
-        if test.func.id == 'isinstance' and len(test.args) == 2 and isinstance(test.args[1], ast.Name):
-            if sm.has_cls(test.args[1].id):
-                return sm.is_subclass(clsname, test.args[1].id)
+            if isinstance(a, ast.Call) and isinstance(a.func, ast.Name) and a.func.id == 'type' and names(b):
+                return any(sm.is_subclass(clsname, n) for n in names(b))
+        if test.func.id == 'isinstance' and len(test.args) == 2 and names(test.args[1]):
+            return any(sm.is_subclass(clsname, n) for n in names(test.args[1]))
     return None
 
 
